@@ -93,7 +93,13 @@ def execute(case):
             placed = p.is_placed()
             rt = None
             if placed:
-                rt = us(p.execution_strategy.runtime) if p.execution_strategy is not None else us(p.task.remaining_time)
+                if p.execution_strategy is not None:
+                    rt = us(p.execution_strategy.runtime)
+                elif p.task.state in (TaskState.VIRTUAL, TaskState.RELEASED):
+                    # a decision without a strategy (Z3): the worst case, computed here and not asked of the task
+                    rt = max(us(s_.runtime) for s_ in p.task.available_execution_strategies)
+                else:
+                    rt = us(p.task.remaining_time)
             plan[p.task.unique_name] = {"task": p.task, "placed": placed, "start": us(p.placement_time) if placed else None, "runtime": rt}
     pairs = check_plan(case, rec, plan, V, "returned plan", pname)
     n_points = 0
@@ -123,6 +129,8 @@ def execute(case):
     res.counters["pairs_checked"] = pairs
     res.nontrivial = pairs > 0
     res.classes = [f"policy={pname}", "pairs" if pairs else "no_pairs"]
+    if rec["state"]["notes"].get("retracted"):
+        res.classes.append("withdrawn_earlier_plan")
     seen, outv = set(), []
     for v in V:
         if v.sig not in seen:
